@@ -189,7 +189,14 @@ func cmdEngineTraces(args []string) {
 				c2 := *c
 				c2.Calls = append([]CallCfg{}, c.Calls...)
 				c2.Calls[last].CancelAt = s
-				c2.Calls[last].FarDeadline = r.Intn(2) == 0
+				switch r.Intn(4) { // the kind of context the caller hands in
+				case 0:
+					c2.Calls[last].FarDeadline = true
+				case 1:
+					c2.Calls[last].Foreign = true
+				case 2:
+					c2.Calls[last].Cause = true
+				}
 				runOne(&c2)
 				if s >= 2 && r.Intn(2) == 0 {
 					// the same cancellation point, after a user method ran other rules on the same engine value
@@ -210,7 +217,14 @@ func cmdEngineTraces(args []string) {
 				c5.Calls = append([]CallCfg{}, c.Calls...)
 				c5.Calls[last].LookAt = k
 				c5.Calls[last].UseCtx = true
-				c5.Calls[last].FarDeadline = r.Intn(2) == 0
+				switch r.Intn(4) {
+				case 0:
+					c5.Calls[last].FarDeadline = true
+				case 1:
+					c5.Calls[last].Foreign = true
+				case 2:
+					c5.Calls[last].Cause = true
+				}
 				runOne(&c5)
 			}
 		}
